@@ -213,7 +213,16 @@ def run_bounded(P, R, tier, seed):
                     R.consequences.append(dict(obligation=name, args={k: bounded.show(v) for k, v in args.items()}, observed=observed))
                     continue
             R.bounded_found = getattr(R, "bounded_found", {})
-            R.bounded_found[name] = (c, args, observed)
+            wc = c
+            if "run" in spec:
+                # witnesses of a custom bounded run are positional calls of the function the obligation names
+                fq = "ecdsa." + name.split("#")[0]
+                try:
+                    loader.find_function(fq)
+                except KeyError:
+                    fq = q
+                wc = LemmaWitness(fq, [v for v in args.values() if v is not None])
+            R.bounded_found[name] = (wc, args, observed)
     return total
 
 
@@ -255,7 +264,7 @@ def write_replay(prop, name, c, args, observed, solver_note, tier):
     fn = re.sub(r"[^A-Za-z0-9_.#()-]", "_", name) + ".json"
     path = os.path.join(d, fn)
     rec = dict(property=prop, obligation=name, tier=tier, solver=solver_note)
-    if c is not None:
+    if c is not None and getattr(c, "qual", None):
         mod, q, node = loader.find_function(c.qual)
         rec.update(function=c.qual, file=os.path.relpath(mod.path, "/repo"), lines=[node.lineno, node.end_lineno],
                    source_sha256=mod.func_hash(q))
